@@ -26,6 +26,8 @@ where
     let path = path.as_ref().to_path_buf();
     let format = Format::from_path(&path)?;
     let source = read_config(&path)?;
+    #[cfg(feature = "verif_hooks")]
+    crate::verif::sync_point("init_file.looked", 0);
     // An Err here could come because mtime isn't available, so don't bail
     let modified = fs::metadata(&path).and_then(|m| m.modified()).ok();
     let config = format.parse(&source)?;
@@ -246,6 +248,8 @@ impl ConfigReloader {
             self.modified = Some(modified);
         }
 
+        #[cfg(feature = "verif_hooks")]
+        crate::verif::sync_point("reloader.stat", 0);
         let source = read_config(&self.path)?;
 
         if source == self.source {
